@@ -139,7 +139,15 @@ func (C12) Generate(rng *mrand.Rand, tier string, runIdx uint64) simkit.Plan {
 	}
 	n := 10 + rng.IntN(40)
 	for len(p.Steps) < n {
-		switch simkit.Weighted(rng, []int{60, 12, 6, 6, 6, 10}) {
+		switch simkit.Weighted(rng, []int{60, 12, 6, 6, 6, 10, 5}) {
+		case 6:
+			// a rotation whose conditional write loses against another writer of the roots table, then requests
+			p.Steps = append(p.Steps, Step{Op: "raft.faults", List: []string{"race", "race", "race", "race"}},
+				Step{Op: "ca.update", Text: simkit.Pick(rng, []string{"ec:384", "ec:224", "ec:256"}), Text2: "72h"})
+			for i, k := 0, 1+rng.IntN(3); i < k; i++ {
+				p.Steps = append(p.Steps, Step{Op: "ca.sign", Text: `service_prefix "" { policy = "write" }`,
+					List: []string{fmt.Sprintf("spiffe://%s/ns/default/dc/dc1/svc/%s", caTrustDomain, simkit.Pick(rng, []string{"web", "api"}))}})
+			}
 		case 0:
 			s := Step{Op: "ca.sign", Text: rules()}
 			nuri := simkit.Weighted(rng, []int{6, 82, 12})
@@ -160,6 +168,8 @@ func (C12) Generate(rng *mrand.Rand, tier string, runIdx uint64) simkit.Plan {
 			// configuration update: another key type forces a new root (rotation); same type is a plain update
 			s := Step{Op: "ca.update", Text: simkit.Pick(rng, []string{"ec:256", "ec:384", "ec:256", "ec:224"}), Text2: simkit.Pick(rng, []string{"72h", "24h"}),
 				Idx: simkit.Pick(rng, []string{"", "", "cur", "stale"})}
+			// the request may name no cluster id, or somebody else's: the cluster keeps its own
+			s.Name = simkit.Pick(rng, []string{"", "", "", "", "none", "foreign"})
 			p.Steps = append(p.Steps, s)
 		case 2:
 			p.Steps = append(p.Steps, Step{Op: "ca.failover"})
@@ -171,7 +181,7 @@ func (C12) Generate(rng *mrand.Rand, tier string, runIdx uint64) simkit.Plan {
 			if faulty {
 				s := Step{Op: "raft.faults"}
 				for i, k := 0, 1+rng.IntN(4); i < k; i++ {
-					s.List = append(s.List, simkit.Pick(rng, []string{"", "", "not-leader", "lost-reply"}))
+					s.List = append(s.List, simkit.Pick(rng, []string{"", "", "not-leader", "lost-reply", "race", "race"}))
 				}
 				p.Steps = append(p.Steps, s)
 			}
@@ -514,6 +524,29 @@ func (w *caWorld) sign(i int, s Step) *simkit.Violation {
 func (C12) execute(p *Plan, r *simkit.Run) *simkit.Violation {
 	w := &caWorld{r: r, serials: map[string]int{}}
 	w.C = NewCluster(r, parseDur(p.Cfg.GCTTL, 15*time.Minute), parseDur(p.Cfg.GCGran, 30*time.Second))
+	// The CA manager reads the roots, builds its conditional write and proposes it; root pruning and the
+	// leftover write of a deposed leader go through the same table without the manager's lock. "race":
+	// such a write (the stored roots again, at the current index) is committed just before the
+	// manager's, whose condition then no longer holds.
+	w.C.RaceHook = func(t structs.MessageType, buf []byte) bool {
+		if t != structs.ConnectCARequestType {
+			return false
+		}
+		var req structs.CARequest
+		if err := structs.Decode(buf[1:], &req); err != nil || req.Op != structs.CAOpSetRootsAndConfig {
+			return false
+		}
+		idx, roots, err := w.C.L.State().CARoots(nil)
+		if err != nil || len(roots) == 0 {
+			return false
+		}
+		var cp structs.CARoots
+		for _, rt := range roots {
+			cp = append(cp, rt.Clone())
+		}
+		resp := w.C.CommitForeign(structs.ConnectCARequestType, &structs.CARequest{Op: structs.CAOpSetRoots, Datacenter: "dc1", Index: idx, Roots: cp}, "race: another routine rewrites the roots")
+		return resp == true
+	}
 	defer w.C.Close()
 	w.newManager()
 	var viol *simkit.Violation
@@ -563,6 +596,13 @@ func (C12) execute(p *Plan, r *simkit.Run) *simkit.Violation {
 			if s.Idx != "" && curCfg != nil {
 				cfg.ModifyIndex = resolveIdx(s.Idx, curCfg.ModifyIndex)
 			}
+			switch s.Name {
+			case "none":
+				cfg.ClusterID = ""
+			case "foreign":
+				cfg.ClusterID = "99999999-2222-3333-4444-555555555555"
+			}
+			ours := curCfg != nil && curCfg.ClusterID == caClusterID
 			_, before, _ := w.C.L.State().CARootActive(nil)
 			var err error
 			w.C.Main(func() {
@@ -577,7 +617,12 @@ func (C12) execute(p *Plan, r *simkit.Run) *simkit.Violation {
 			if after != nil && !w.deposed {
 				w.inited = w.inited || err == nil
 			}
-			r.Eventf("ca.update %s idx=%s -> err=%v rotated=%v", s.Text, s.Idx, err != nil, rotated)
+			if _, now, _ := w.C.L.State().CAConfig(nil); ours && (now == nil || now.ClusterID != caClusterID) {
+				// every identity the CA certifies from here on belongs to another trust domain than the one the roots were made for
+				return &simkit.Violation{Property: "C12", Class: "unauthorized-cert", Invariant: "trust-domain-never-moves", Step: i, Culprit: "ca.update",
+					Detail: fmt.Sprintf("a configuration update naming cluster id %q replaced the cluster id %s (err=%v): the CA now issues and accepts identities of trust domain %s.consul under the roots of %s", cfg.ClusterID, caClusterID, err, cfg.ClusterID, caTrustDomain)}
+			}
+			r.Eventf("ca.update %s idx=%s id=%s -> err=%v rotated=%v", s.Text, s.Idx, s.Name, err != nil, rotated)
 			r.Sig(fmt.Sprintf("update:%v:%v", err != nil, rotated))
 		case "ca.failover":
 			w.C.Failover()
